@@ -13,6 +13,7 @@
 #define VF_INPUTS(X) X(unsigned char, isobj, ) X(unsigned char, n, ) X(unsigned char, f, ) X(unsigned char, key, [K + 1][TS + 1]) X(unsigned char, suf, [SUF + 1]) X(unsigned char, mode, ) \
     X(unsigned char, g_text, [2][26]) X(double, g_val, ) X(double, strtod_val, ) X(unsigned char, dp, )
 #include "vf.h"
+#include "vf_str.h"
 #define VF_MODEL_PRINTF
 #include "vf_libc.h"
 #include "vf_mem.h"
